@@ -148,5 +148,5 @@ def grid1000_scenarios(n):
                 tot = b + adv
                 m, b = m + tot // (met * G), tot % (met * G)
             tl.append({"m": m, "b": b, "bl": bl, "met": met})
-        out.append({"id": f"g1000_{i}", "cls": "grid1000", "G": G, "tl": tl, "t0": 0, "vias": ["fn", "fn_twice"]})
+        out.append({"id": f"g1000_{i}", "cls": "grid1000", "G": G, "tl": tl, "t0": 0, "vias": ["fn", "fn_twice", "tm"]})
     return out
